@@ -44,7 +44,7 @@ func init() {
 		Level:  "exploration",
 		Rule: "E1 + depth-bounded E2: (of) every subset of the 11 boundary positions {0,1,62,63,64,65,127,128,129,191,192} × n in {absent,-5,0,1,63,64,65,128,129,193,300}: word count and exact bit set of Of, ToArray(Of(l)) = l, Of(ToArray(b)) = b up to trailing zero words, and Get/Get1 inside plus SafeGet/SafeGet1 at every probe in [-70, 64·words+70); " +
 			"(of, far) every subset of {0,63,64,4095,4096,4097,65535,65536,2^20-1,2^20} × 6 sizes with probes around every position and end; (ofmany) every sequence of ≤3 segments (positions ⊂ {0,1,63,64,65}, size in {0,1,63,64,65,130}; positions ≥ size included, so the shifted concatenation need not be ascending) whose shifted bits all fit into the word count the statement gives, against the set model and that word count; " +
-			"(giant, 64-bit builds) the top of the int32 position range: Of on 12 (positions, n) combinations whose last bit or size lies within 65 of MaxInt32 (bitmaps of 2^25-1 and 2^25 words), with ToArray on two of them, Get/SafeGet probes next to every bit and SafeGet at MinInt32, and OfMany / a Builder whose running offset ends 50 below MaxInt32; reference arithmetic in int64; " +
+			"(ofmany, many segments) OfMany on every threshold number of segments (round numbers ±1) from 1000 to 70000; (giant, 64-bit builds) the top of the int32 position range: Of on 12 (positions, n) combinations whose last bit or size lies within 65 of MaxInt32 (bitmaps of 2^25-1 and 2^25 words), with ToArray on two of them, Get/SafeGet probes next to every bit and SafeGet at MinInt32, and OfMany / a Builder whose running offset ends 50 below MaxInt32; reference arithmetic in int64; " +
 			"(builder) every sequence of ≤3 operations over the 216-operation alphabet (and every sequence of 4..R operations over a 10-operation sub-alphabet) {Extend(those 192 segments), Set(pos in {0,1,63,64,65,200}, value in 0..3)} executed on a real Builder from NewBuilder(0) and NewBuilder(256) (depth ≤2 also from NewBuilder(64) and NewBuilder(130)), with a second Builder extended and set between the steps (objects must not share state): set bits, Offset, capacity for every bit, and exact equality with the reference Of for Extend-only histories with ascending positions. A case is one call / one history; non-trivial when at least one bit is set.",
 		Assumptions: []string{"positions beyond 300 and longer histories are not enumerated; non-ascending lists are outside Of's and OfMany's statement"},
 		Run:         c12Run,
@@ -557,6 +557,20 @@ func c12Run(c *mc.Ctx) {
 		c.Count(evals, nontriv)
 		c.Add("probe_calls", probes*4)
 	})
+	// (ofmany, many segments) every threshold number of segments (round numbers ±1) from 1000 to 70000:
+	// segment i has size 1 + i%3 and sets its bit 0 when i%5 != 0 (so sizes and emptiness vary)
+	{
+		sizes := gen.ThresholdSizes(1000, 70000)
+		c.Expect(int64(len(sizes)))
+		c.Par(len(sizes), func(si int) {
+			n := sizes[si]
+			if got, want := c12ManySegments(n); got != want {
+				c.Fail(8<<50|int64(n), "OfManySegments", "OfMany/many-segments", c12Case{N: int32(n)}, got, want)
+			}
+			c.Count(1, 1)
+			c.Add("ofmany_many_segment_calls", 1)
+		})
+	}
 	// (giant) the top of the int32 position range: bitmaps of 2^25-1 and 2^25 words (256 MiB)
 	if mbits.UintSize == 64 {
 		gs := c12Giants()
@@ -811,6 +825,37 @@ func c12GiantOne(pos []int32, hasN bool, n int32, withToArray bool) (got, want s
 	return "ok", "ok"
 }
 
+// c12ManySegments judges OfMany on n generated segments.
+func c12ManySegments(n int) (got, want string) {
+	subs := make([][]int32, n)
+	sizes := make([]int32, n)
+	var bits []int64
+	total := int64(0)
+	for i := range subs {
+		sizes[i] = int32(1 + i%3)
+		if i%5 != 0 {
+			subs[i] = []int32{0}
+			bits = append(bits, total)
+		}
+		total += int64(sizes[i])
+	}
+	want = fmt.Sprintf("%d words, %d bits set as listed", (total+63)/64, len(bits))
+	w, p := ofMany(subs, sizes)
+	if p != "" {
+		return p, want
+	}
+	have := c12SparseBits(w)
+	if int64(len(w)) != (total+63)/64 || len(have) != len(bits) {
+		return fmt.Sprintf("%d words, %d bits set", len(w), len(have)), want
+	}
+	for i := range bits {
+		if have[i] != bits[i] {
+			return fmt.Sprintf("bit %d of the result is at %d, want %d", i, have[i], bits[i]), want
+		}
+	}
+	return want, want
+}
+
 type c12Giant struct {
 	pos     []int32
 	hasN    bool
@@ -878,6 +923,8 @@ func c12Judge(kind string, cs c12Case) (got, want string) {
 	switch kind {
 	case "OfGiant":
 		return c12GiantOne(cs.Pos, cs.HasN, cs.N, cs.Probe == 1)
+	case "OfManySegments":
+		return c12ManySegments(int(cs.N))
 	case "OfManyGiant":
 		return c12GiantMany("OfMany")
 	case "BuilderGiant":
